@@ -70,7 +70,7 @@ def matrix(tier, focus="general"):
         for p in PLANS:
             runs.append(Run(p, programs=6, ops=140, mutators=3, extra=["--bind"]))
             runs.append(Run(p, feats=["vo_bit"], name="small", heap=8, workers=4, programs=5,
-                            ops=180, seed_off=1))
+                            ops=180, seed_off=1, mutators=2, extra=["--bind"]))
     else:
         for p in PLANS:
             for i, w in enumerate([1, 2, 4, 8]):
@@ -146,9 +146,7 @@ def cycle_matrix(tier):
     for p in PLANS:
         if p == "NoGC":
             continue
-        # Compressor: a collection with more than one region (1 MB) of live data is a recorded
-        # defect (KNOWN_FINDINGS.json); ordinary Compressor cycles collect garbage only.
-        x = ["--nomidgc"] if p == "Compressor" else []
+        x = []
         if tier == "quick":
             runs.append(Run(p, name="cycles", heap=16, sems="0,0,0,2,6",
                             extra=["--mode", "cycles", "--cycles", "24"] + x))
@@ -163,9 +161,6 @@ def cycle_matrix(tier):
                             sems="0,0,2", seed_off=3, extra=["--mode", "cycles", "--cycles", "100"] + x))
             runs.append(Run(p, feats=["immix_smaller_block"], name="cycles-sb", heap=16,
                             sems="0,0,2", seed_off=4, extra=["--mode", "cycles", "--cycles", "100"] + x))
-    runs.append(Run("Compressor", name="cycles-liveregions-probe", heap=16, sems="0,0,2", workers=1,
-                    extra=["--mode", "cycles", "--cycles", "10"],
-                    known_key="Compressor:live-data-spanning-regions"))
     return runs
 
 
